@@ -64,7 +64,16 @@ Record options := mkOptions {
   o_f_activation : Z; o_f_travel : Z; o_f_vehicles_duration : Z; o_f_unplanned : Z
 }.
 
+(* a user-supplied constraint (C19): an exact check with an estimate that
+   always answers "not violated".  The check is a bound on one cached field of
+   the stop it is asked about; checked at every stop, or only at the vehicle's
+   last stop (a vehicle-level check).  [ua_temporal]: the constraint declares
+   IsTemporal (it is skipped by the non-temporal pass). *)
+Inductive ufield := UPos | UArrival | UStart | UEnd | UCumTravel | UWait | ULevel (r : nat).
+Record uatom := mkUAtom { ua_field : ufield; ua_max : Z; ua_vehicle_level : bool; ua_temporal : bool }.
+
 Record input := mkInput {
+  in_user : list uatom;
   in_stops : list istop;
   in_vehicles : list ivehicle;
   in_units : list iunit;              (* every stop in exactly one unit *)
@@ -290,11 +299,29 @@ Definition has_latest_end (inp : input) : bool :=
   (negb (o_dis_max_duration (in_opts inp)) && any_vehicle iv_max_duration inp).
 
 Inductive cons_id := KCapacity (r : nat) | KDistance | KLatestStart | KLatestEnd
-                   | KMaxWaitStop | KMaxWaitVehicle | KMaxStops | KAttributes.
+                   | KMaxWaitStop | KMaxWaitVehicle | KMaxStops | KAttributes | KUser (i : nat).
+
+Definition ufield_value (inp : input) (c : cell) (f : ufield) : Z :=
+  match f with
+  | UPos => Z.of_nat (c_pos c) | UArrival => c_arrival c | UStart => c_start c | UEnd => c_end c
+  | UCumTravel => c_cumtravel c | UWait => c_start c - c_arrival c
+  | ULevel r => if has_capacity inp then nthZ (c_levels c) r else 0   (* no capacity constraint: no such expression *)
+  end.
+
+(* index of the first user constraint whose exact check rejects cell c *)
+Fixpoint user_violation (inp : input) (temporal : bool) (c : cell) (i : nat) (us : list uatom) : option nat :=
+  match us with
+  | [] => None
+  | a :: rest =>
+      if (temporal || negb (ua_temporal a)) &&
+         (negb (ua_vehicle_level a) || is_last_stop inp (c_stop c)) &&
+         (ua_max a <? ufield_value inp c (ua_field a))
+      then Some i else user_violation inp temporal c (S i) rest
+  end.
 
 (* stop-level exact check of all installed constraints at one cell;
    [temporal]: includeTemporal of isFeasible *)
-Definition stop_violation (inp : input) (v : nat) (temporal : bool) (c : cell) : option cons_id :=
+Definition builtin_violation (inp : input) (v : nat) (temporal : bool) (c : cell) : option cons_id :=
   let s := c_stop c in
   let cap_viol :=
     if has_capacity inp then
@@ -327,6 +354,16 @@ Definition stop_violation (inp : input) (v : nat) (temporal : bool) (c : cell) :
      | Some w => w <? c_wait_acc c
      | None => false end
   then Some KMaxWaitVehicle else None
+  end.
+
+(* built-in constraints first, then the user's (AddConstraint order) *)
+Definition stop_violation (inp : input) (v : nat) (temporal : bool) (c : cell) : option cons_id :=
+  match builtin_violation inp v temporal c with
+  | Some k => Some k
+  | None => match user_violation inp temporal c 0 (in_user inp) with
+            | Some i => Some (KUser i)
+            | None => None
+            end
   end.
 
 (* forward pass from the cached cell [p] over the stops [rest]: new cells, or
